@@ -405,6 +405,45 @@ def run(ctx):
                              {'kind': 'to_new_list', 'olds': [p[0] for p in pick]})
                     break
     common.compare(ctx, 'descr', ops, impl, what='convert_slots_to_new / convert_slots_to_old (single slots and lists)')
+    # ... and the other direction: a list may mix slots that are old already with new ones (Slot objects or their
+    # plain-dict transport form), in any order; every element converts as it converts alone, old ones stay as they are
+    def plain(x):
+        if isinstance(x, dict):
+            return {k: (plain(v) if k in ('cores', 'gpus') else v) for k, v in x.items()}
+        if isinstance(x, list):
+            return [plain(v) for v in x]
+        if hasattr(x, 'as_dict'):
+            return plain(x.as_dict())
+        return x
+    nmix = 0
+    olds_ok = [p for p in singles if isinstance(p[2], dict) and all(isinstance(c, int) for c in p[0]['cores']) and all(isinstance(g, int) for g in p[0]['gpus'])]
+    for _ in range(ctx.n(300, 8000)):
+        if not olds_ok: break
+        forms, items = [], []
+        for _ in range(rng.choice([1, 2, 2, 3, 4])):
+            o = copy.deepcopy(rng.choice(olds_ok)[0])
+            f = rng.choice(['old', 'slot', 'dict'])
+            forms.append(f)
+            if f == 'old':
+                # what convert_slots_to_old itself writes: per-rank index lists, no version field
+                items.append(dict(o, cores=[[c] for c in o['cores']], gpus=[[g] for g in o['gpus']]))
+            else:
+                n = convert_slots_to_new([o])[0]
+                items.append(n if f == 'slot' else n.as_dict())
+        try:
+            alone = [plain(convert_slots_to_old([copy.deepcopy(x)])[0]) for x in items]
+            got   = [plain(x) for x in convert_slots_to_old([copy.deepcopy(x) for x in items])]
+        except Exception as e:
+            alone, got = None, type(e).__name__
+        nmix += len(set(forms)) > 1
+        ctx.case({'to_old_list': forms}, nontrivial=len(set(forms)) > 1)
+        if got != alone:
+            ctx.fail('slots:slot-converts-differently-inside-a-list',
+                     'list of slots in the forms %s: converted one by one %s, as a list %s' % (forms, alone, got),
+                     {'kind': 'to_old_list', 'forms': forms, 'olds': [plain(x) for x in items]})
+        elif isinstance(got, list) and any(('version' in x and x['version']) or any(not isinstance(c, list) for c in x['cores']) for x in got):
+            ctx.fail('slots:to_old-leaves-a-new-slot', 'forms %s -> %s' % (forms, got), {'kind': 'to_old_list', 'forms': forms, 'olds': [plain(x) for x in items]})
+    hit['mixed_slot_lists'] = nmix
 
     # -- function transport --------------------------------------------------------------
     bad_fn = 0
@@ -475,6 +514,17 @@ def replay(ctx, data):
         a = slot_canon(sl.as_dict()); b = slot_canon(Slot(from_dict=copy.deepcopy(sl.as_dict())).as_dict())
         print('observed:', a, '->', b)
         return a == b
+    if i['kind'] == 'to_old_list':
+        from radical.pilot.utils.misc import convert_slots_to_old
+        def plain(x):
+            if isinstance(x, dict): return {k: (plain(v) if k in ('cores', 'gpus') else v) for k, v in x.items()}
+            if isinstance(x, list): return [plain(v) for v in x]
+            return plain(x.as_dict()) if hasattr(x, 'as_dict') else x
+        items = i['olds']
+        alone = [plain(convert_slots_to_old([copy.deepcopy(x)])[0]) for x in items]
+        got   = [plain(x) for x in convert_slots_to_old([copy.deepcopy(x) for x in items])]
+        print('one by one:', alone); print('as a list :', got)
+        return got == alone and not any(x.get('version') for x in got)
     if i['kind'] == 'to_new_list':
         from radical.pilot.utils.misc import convert_slots_to_new
         def fix(o):       # JSON turned the (index, occupation) tuples into lists
